@@ -501,6 +501,66 @@ pub fn generate(thorough: bool) -> Vec<Dup> {
         }
     }
 
+    // ---- 10. inputs of the OTHER carrier present as decoys: they belong to a carrier that is not in use and
+    //          must not be consulted (the request still has exactly one carrier)
+    for which in 0..5usize {
+        // header carrier + an X-Amz-* query parameter other than X-Amz-Algorithm (an ordinary, signed parameter)
+        let names = ["X-Amz-Credential", "X-Amz-Date", "X-Amz-SignedHeaders", "X-Amz-Signature", "X-Amz-Security-Token"];
+        let decoy_vals = [
+            format!("AKIDOTHER/{}/us-east-1/service/aws4_request", d8),
+            other_instants[2].compact(),
+            "host".to_string(),
+            "0".repeat(64),
+            "DECOY-0".to_string(),
+        ];
+        for with_token in [false, true] {
+            let mut plan = e2e::base_plan(Carrier::Header);
+            plan.url_params = vec![(names[which].as_bytes().to_vec(), decoy_vals[which].clone().into_bytes())];
+            if with_token {
+                plan.token = Some("VALID-TOKEN".into());
+                plan.signed.push("x-amz-security-token".into());
+            }
+            let built = build(&plan);
+            out.push(Dup {
+                label: format!("header carrier with decoy query parameter {} (token header: {})", names[which], with_token),
+                wire: WireReq::from_wire(&built.wire),
+                cfg: cfg.clone(),
+                expect_ok: true,
+                expect_ask: Some((e2e::ACCESS_KEY.into(), if with_token { Some("VALID-TOKEN".to_string()) } else { None })),
+                expect_both_carriers: false,
+            });
+        }
+    }
+    for (hname, hval) in [
+        ("X-Amz-Date", other_instants[2].compact()),
+        ("Date", other_instants[2].compact()),
+        ("X-Amz-Security-Token", "DECOY-0".to_string()),
+        ("X-Amz-Credential", format!("AKIDOTHER/{}/us-east-1/service/aws4_request", d8)),
+    ] {
+        for with_token in [false, true] {
+            for sign_it in [false, true] {
+                // query carrier + a header that only the header carrier would consult
+                let mut plan = e2e::base_plan(Carrier::Query);
+                plan.headers.push((hname.to_string(), hval.clone().into_bytes()));
+                if sign_it {
+                    plan.signed.push(hname.to_ascii_lowercase());
+                }
+                if with_token {
+                    plan.token = Some("VALID-TOKEN".into());
+                }
+                let built = build(&plan);
+                out.push(Dup {
+                    label: format!("query carrier with decoy header {} (signed: {}, token parameter: {})", hname, sign_it, with_token),
+                    wire: WireReq::from_wire(&built.wire),
+                    cfg: cfg.clone(),
+                    expect_ok: true,
+                    expect_ask: Some((e2e::ACCESS_KEY.into(), if with_token { Some("VALID-TOKEN".to_string()) } else { None })),
+                    expect_both_carriers: false,
+                });
+            }
+        }
+    }
+
     // ---- pairs of simultaneously duplicated inputs (thorough): token x date, both header carrier
     if thorough {
         for (n1, k1) in nk() {
@@ -560,7 +620,7 @@ pub fn eval(index: u64, d: &Dup, st: &mut Stats) {
             if !d.expect_ok {
                 bad = Some(("wrong-occurrence-selected(accepted)".into(), "refused".into(), "Ok".into()));
             } else if let Some((ak, tok)) = &d.expect_ask {
-                let ok = j.calls.len() == 1 && j.calls[0].access_key == *ak && (j.calls[0].token == *tok || tok.is_none() && j.calls[0].token.is_none());
+                let ok = j.calls.len() == 1 && j.calls[0].access_key == *ak && j.calls[0].token == *tok;
                 if !ok {
                     bad = Some(("provider-saw-wrong-identity".into(), format!("{:?}", d.expect_ask), format!("{:?}", j.calls)));
                 }
@@ -604,7 +664,7 @@ pub fn run(ctx: &Ctx) -> Report {
     });
     Report {
         stats: st,
-        rule: "for each duplicable input — Authorization header (4 decoy kinds, with/without interleaved headers); Credential / SignedHeaders / Signature inside it (2 separators), and differently-cased look-alikes of those names before/after the real ones (24 runs each); X-Amz-Date header (signed or not); X-Amz-Date vs Date in both orders; X-Amz-Security-Token header; query X-Amz-Algorithm / -Credential / -Date / -SignedHeaders / -Security-Token (adjacent or spread) and X-Amz-Signature — 2 or 3 occurrences with differing values and the single valid value at every position; the request is signed as received (all values in the canonical form) with the valid occurrence's data, so it validates iff the documented rule selects that occurrence; each X-Amz-* parameter once in the URL and once in a folded form body (valid one in either place, body with fewer or more names than the URL); plus Authorization together with X-Amz-Algorithm (3 values) in the URL, in a folded body and as a complete second authentication; thorough adds all pairs of duplicated date x token. Oracle: generator's expectation (independent of the reference verifier, and cross-checked against it), error kind and provider identity. states = (stage, identity seen by provider)".into(),
+        rule: "for each duplicable input — Authorization header (4 decoy kinds, with/without interleaved headers); Credential / SignedHeaders / Signature inside it (2 separators), and differently-cased look-alikes of those names before/after the real ones (24 runs each); X-Amz-Date header (signed or not); X-Amz-Date vs Date in both orders; X-Amz-Security-Token header; query X-Amz-Algorithm / -Credential / -Date / -SignedHeaders / -Security-Token (adjacent or spread) and X-Amz-Signature — 2 or 3 occurrences with differing values and the single valid value at every position; the request is signed as received (all values in the canonical form) with the valid occurrence's data, so it validates iff the documented rule selects that occurrence; each X-Amz-* parameter once in the URL and once in a folded form body (valid one in either place, body with fewer or more names than the URL); inputs of the carrier that is NOT in use present as decoys (X-Amz-* query parameters next to an Authorization header; date / token / credential headers next to query authentication); plus Authorization together with X-Amz-Algorithm (3 values) in the URL, in a folded body and as a complete second authentication; thorough adds all pairs of duplicated date x token. Oracle: generator's expectation (independent of the reference verifier, and cross-checked against it), error kind and provider identity. states = (stage, identity seen by provider)".into(),
         bounds: json!({"cases": n, "occurrences": [2, 3]}),
         exhaustive: true,
         assumptions: vec![],
